@@ -7,6 +7,7 @@ import numpy as np
 
 PROPERTY = "C16"
 LEVEL = "exploration"
+OPTIMIZED_SAMPLE = (5, 100)  # cases repeated under python -O (quick, thorough)
 JOBS = 16
 CASE_TIMEOUT = 300
 RULE = (
